@@ -2,7 +2,7 @@
    Model: Model/HeadShift.v, a model of ShiftFormula (theory/head.py): shifting a head formula from its origin step s to
    the current step s+d, with until/release unrolled and parts behind the current step read classically. *)
 From Coq Require Import List Bool Arith ZArith Lia.
-Require Import GenPrelude TheoryPrelude FormPrelude FromHeadForm FromHeadRanges HT TEL Laws HeadShift HeadComplete HeadForm IntervalSet IntervalProofs HeadRanges RangesCover.
+Require Import GenPrelude TheoryPrelude FormPrelude FromHeadForm FromHeadRanges HT TEL Laws HeadShift HeadComplete HeadForm TheorySem BodyTheoryFull HeadRulesProofs IntervalSet IntervalProofs HeadRanges RangesCover.
 (* at the origin step the shifted formula is classically the formula itself *)
 Theorem C04_shift_origin_classical : forall (A : Type) (h : nat) (T : trace A) (p : hf A) (k : nat), k <= h ->
   ssat A h T T (shift A p 0) k = csat A h T p k.
@@ -60,6 +60,23 @@ Proof. exact shift_until_spec. Qed.
 Theorem C04_unfold_is_cnf : forall (A : Type) (h : nat) (H T : trace A) (k : nat) (g : sf A),
   forallb (clause_sat A h H T k) (unfold A g) = ssat A h H T g k.
 Proof. exact unfold_sat. Qed.
+(* ClauseToRule / HeadFormulaToBodyFormula (decisions REGENERATED): the body formula object built for a sub-formula of a head formula has
+   its classical (LTLf) value, ... *)
+Theorem C04_head_to_body_formula_keeps_the_value : forall (A : Type) (h : nat) (T : HeadShift.trace A) (p : hf A) (b : bf A),
+  h2b A p = Some b -> forall k, BodyTheoryFull.lsat A h T b k = csat A h T p k.
+Proof. exact h2b_value. Qed.
+(* ... the formula handed to the body theory for a shifted part is false exactly if that part holds (its literal enters the rule body), ... *)
+Theorem C04_rule_body_formula_negates_the_shifted_part : forall (A : Type) (h : nat) (H T : HeadShift.trace A) (g : sf A) (b : bf A),
+  body_formula A g = Some b -> forall k, BodyTheoryFull.lsat A h T b k = negb (ssat A h H T g k).
+Proof. exact body_formula_value. Qed.
+(* ... and the rules added at a state (one per clause; atoms outside the atom base - which are false - left out of the head) are jointly
+   HT-satisfied exactly if the shifted formula is; a rule exists for every clause of every head formula at every distance *)
+Theorem C04_rules_of_a_state_mean_the_shifted_formula : forall (A : Type) (h : nat) (H T : HeadShift.trace A) (inbase : A -> bool) (F : hf A) (d k : nat) (rs : list (hrule A)),
+  (forall a, inbase a = false -> H k a = false) -> rules_at A inbase F d = Some rs ->
+  forallb (rule_sat A h H T k) rs = ssat A h H T (shift A F d) k.
+Proof. exact rules_at_sat. Qed.
+Theorem C04_every_clause_becomes_a_rule : forall (A : Type) (inbase : A -> bool) (F : hf A) (d : nat), exists rs, rules_at A inbase F d = Some rs.
+Proof. exact rules_at_total. Qed.
 (* the domain rule: the time ranges computed for the atoms of a head formula (TheoryAtomTransformer, increments REGENERATED from
    transformers/head.py) cover every atom that a shifted formula can have in a rule head, at its distance from the origin state - so the atom
    has been introduced into the atom base and ClauseToRule finds it *)
@@ -83,6 +100,10 @@ Print Assumptions C04_past_operators_rejected_in_heads.
 Print Assumptions C04_shift_model_follows_source_next.
 Print Assumptions C04_shift_model_follows_source_until.
 Print Assumptions C04_unfold_is_cnf.
+Print Assumptions C04_head_to_body_formula_keeps_the_value.
+Print Assumptions C04_rule_body_formula_negates_the_shifted_part.
+Print Assumptions C04_rules_of_a_state_mean_the_shifted_formula.
+Print Assumptions C04_every_clause_becomes_a_rule.
 Print Assumptions C04_ranges_cover_every_head_atom.
 Print Assumptions C04_interval_set_add.
 Print Assumptions C04_interval_set_of_list.
